@@ -331,7 +331,7 @@ def run(ctx):
             if rnd.random() < 0.2:
                 e.output_variables[0].enabled = False
             acts = rnd.sample(all_methods(fl, n, (0.0, 0.125, 0.25, 0.3, 0.5, 1.0)), 12)
-            vals = [rnd.choice([0.0, 0.125, 0.25, 0.5, 0.5, 1.0, rnd.randrange(0, 17) / 16]) for _ in range(n)]
+            vals = [rnd.choice([0.0, 0.125, 0.25, 0.5, 0.5, 1.0, rnd.randrange(0, 17) / 16, 1e-17, 1e-300, 5e-324]) for _ in range(n)]
             drive(ctx, fl, e, vals, acts, weights)
             if i < 2:
                 ctx.sample("random", {"rules": n, "weights": weights, "enabled": enabled, "loaded": loaded, "inputs": vals, "methods": [[k, list(p)] for k, p in acts[:4]]})
